@@ -562,3 +562,44 @@ def y5(prog):
                                     % (fn, short_name, " -> ".join(mt.witness(keys[0])[:2]) if keys else ext), "detail": None})
         inst.append(("Y5:%s" % fn, {"throwing_sites": n}))
     return inst, findings
+
+
+def l5(prog):
+    """A scon_guard keeps a raw pointer to the op graph and a reference to the state area, and its destructor runs state_des through
+    both.  Members are destroyed in reverse declaration order, so in every class that holds a guard next to what keeps those alive - a
+    state area (`scon`), an owning pointer to ops (shared_ptr/unique_ptr of op or of a closure value) - the guard must be declared
+    AFTER them (it is then destroyed first), and its initialiser must refer to those members, not to constructor parameters whose
+    ownership is handed on."""
+    inst, findings = [], []
+    n = 0
+    for q, r in sorted(prog.records.items()):
+        fl = r.get("fields", [])
+        gi = [i for i, f in enumerate(fl) if (f.get("t") or "") in ("scon_guard",) or (f.get("t") or "").endswith("optional<scon_guard>")]
+        if not gi or q.startswith("nonstd::"):
+            continue
+        n += 1
+        key = "L5:" + q
+        bad = None
+        for g in gi:
+            for i, f in enumerate(fl):
+                t = f.get("t") or ""
+                keeps_alive = t == "scon" or t.startswith(("std::shared_ptr<op", "std::unique_ptr<op", "std::shared_ptr<const op", "std::unique_ptr<value_closure", "std::shared_ptr<value_closure"))
+                if keeps_alive and i > g:
+                    bad = bad or (f.get("l") or r.get("l"), "member `%s` (%s) is declared after the guard `%s`: it is destroyed BEFORE the guard, whose destructor then runs state_des on %s" % (
+                        f["n"], t.split(",")[0], fl[g]["n"], "a released state area" if t == "scon" else "ops that may already be freed (use after free when this object held the last reference)"))
+        # the guard's initialiser uses members, not parameters that own ops
+        for c in prog.funcs.values():
+            if c.get("cls") != q or not c.get("inits"):
+                continue
+            own_params = {p["id"]: p["n"] for p in c.get("params", []) if (p.get("t") or "").startswith(("std::shared_ptr<op", "std::unique_ptr<op", "std::unique_ptr<value_closure"))}
+            for i in c["inits"]:
+                if i.get("field") in [fl[g]["n"] for g in gi] and isinstance(i.get("init"), dict):
+                    for y in walk(i["init"]):
+                        if y.get("k") == "ref" and y.get("id") in own_params:
+                            bad = bad or (c.get("l"), "the guard `%s` is initialised from the constructor parameter `%s` instead of the member that owns the ops" % (i["field"], own_params[y["id"]]))
+        inst.append((key, {"guards": len(gi)}))
+        if bad:
+            findings.append({"key": key, "where": "libzwerg/" + str(bad[0]), "msg": "%s: %s" % (q, bad[1]), "detail": None})
+    if n < 3:
+        raise Broken("fewer classes holding a scon_guard than confirmed by hand (3 of 4)")
+    return inst, findings
